@@ -246,20 +246,23 @@ def _grid_variant(unit, rec, vtag, gshape, bm):
     return jax.jit(f)
   fr = ops(ref, filt_ref, stepf_ref)
   fm = ops(g, filt, stepf)
-  counts = ([1, 2, 3, 5, 7] if unit['full'] else [1, 3, 5]) if vtag.startswith('small') else [3]
+  # level count 0 stands for a rank-2 (m, l) field without a level axis (surface fields, orography)
+  counts = ([0, 1, 2, 3, 5, 7] if unit['full'] else [0, 1, 3, 5]) if vtag.startswith('small') else [0, 3]
   for k in counts:
     key = ('grid_ops', list(shape), vtag, k)
     if not rec.want(key):
       continue
     worst = {}
     first_out = None
-    for start in range(0, n, k):
-      sel = idx[start:start + k]
+    for start in range(0, n, max(k, 1)):
+      sel = idx[start:start + max(k, 1)]
       if len(sel) < k:
         sel = sel + idx[:k - len(sel)]
-      xr = np.zeros((k, rows, L))
+      xr = np.zeros((max(k, 1), rows, L))
       for j, (i, l) in enumerate(sel):
         xr[j, i, l] = 1.0 + 0.25 * j
+      if k == 0:
+        xr = xr[0]
       a = fr(jnp.asarray(sphere.real_to_fast(xr, ref.modal_shape)))
 
       def run():
@@ -270,8 +273,8 @@ def _grid_variant(unit, rec, vtag, gshape, bm):
       for name in a:
         ya, yb = np.asarray(a[name]), np.asarray(b[name])
         if name == 'to_nodal':
-          ya_c, yb_c = ya[:, :nlon, :nlat], yb[:, :nlon, :nlat]
-          pad_zero = [yb[:, nlon:], yb[:, :, nlat:]]
+          ya_c, yb_c = ya[..., :nlon, :nlat], yb[..., :nlon, :nlat]
+          pad_zero = [yb[..., nlon:, :], yb[..., nlat:]]
         else:
           ya_c, yb_c = sphere.fast_to_real(ya, M, L), sphere.fast_to_real(yb, M, L)
           pad_zero = []
@@ -284,7 +287,7 @@ def _grid_variant(unit, rec, vtag, gshape, bm):
             rec.fail('sharded_nodal_padding_zero', key, {'operation': name})
         if name in ('roundtrip', 'clip', 'mask'):
           gm = np.asarray(g.mask, dtype=bool)
-          if np.any(yb[:, ~gm] != 0):
+          if np.any(yb[..., ~gm] != 0):
             rec.fail('sharded_masked_entries_zero', key, {'operation': name}, {'operation': name})
       if first_out is None:
         first_out = np.asarray(b['to_nodal']).tobytes()
